@@ -178,8 +178,10 @@ class Ctx:
             "known_findings_hit": sorted(self.known_hits),
             "notes": self.notes,
         }
-        os.makedirs(os.path.join(VERIF, "evidence"), exist_ok=True)
-        with open(os.path.join(VERIF, "evidence", self.prop + ".json"), "w") as f:
+        # evidence under /verif/evidence describes /repo only; self-tests against another tree (VERIF_REPO) write elsewhere
+        evdir = os.environ.get("VERIF_EVIDENCE") or (os.path.join(VERIF, "evidence") if os.path.realpath(REPO) == "/repo" else "/var/tmp/verif-alt-evidence")
+        os.makedirs(evdir, exist_ok=True)
+        with open(os.path.join(evdir, self.prop + ".json"), "w") as f:
             json.dump(ev, f, indent=1, default=str)
         for k, t in sorted(self.known_hits.items()):
             print("KNOWN-FINDING: property=%s %s %s" % (self.prop, k, t))
@@ -285,7 +287,7 @@ def tlc_raw(ctx, spec_dir, module, cfg, workers=4, extra=(), env=None, timeout=9
 
 
 def tlc_mc(ctx, spec_dir, module, cfg, workers=None, coverage=True, timeout=1200, xmx="8g",
-           expect_ok=True, extra=(), cfg_text=None, env=None, require_actions=()):
+           expect_ok=True, extra=(), cfg_text=None, env=None, require_actions=(), deque=False):
     """Exhaustive model check.  Any error/violation on the unchanged spec is an internal error
     (the spec is ours; a failing spec means a broken check, not a property violation),
     unless expect_ok=False, in which case (ok, result) is returned."""
@@ -294,7 +296,7 @@ def tlc_mc(ctx, spec_dir, module, cfg, workers=None, coverage=True, timeout=1200
     if coverage:
         ex = ["-coverage", "1"] + ex
     rc, out, err, wall = tlc_raw(ctx, spec_dir, module, cfg, workers, ex, timeout=timeout, xmx=xmx,
-                                 cfg_text=cfg_text, env=env)
+                                 cfg_text=cfg_text, env=env, deque=deque)
     m = _RE_STATES.findall(out)
     res = {"module": module, "cfg": cfg, "rc": rc, "wall_s": round(wall, 2), "out": out,
            "generated": int(m[-1][0]) if m else 0, "distinct": int(m[-1][1]) if m else 0}
